@@ -188,7 +188,8 @@ fn observe(k: usize, c: &Value, text: &str, o: &run::Outcome, krate: &rsproj::RC
     }
     let key = if c["ty"] == "INTEGER" { "value" } else { "size" };
     let Some(item) = krate.item(&names[0]) else {
-        ev["status"] = json!("missing");
+        ev["status"] = json!(if o.warnings.is_empty() { "missing" } else { "warn" });
+        ev["detail"] = json!(o.warnings.first().cloned().unwrap_or_default());
         return ev;
     };
     let mut out = vec![];
@@ -219,7 +220,9 @@ fn module(body: &str) -> String {
 fn run_batch(base: usize, cases: &[Value]) -> Vec<Value> {
     let texts: Vec<String> = cases.iter().enumerate().map(|(i, c)| render(base + i, c)).collect();
     let (o, _) = run::compile_rasn1(&module(&texts.join("\n")));
-    if o.clean() {
+    if o.status == "ok" {
+        // a definition the generator gives up on is dropped with a warning that often does not
+        // name it; so: item present -> judged; item absent and the batch has warnings -> "warn"
         let krate = rsproj::project(&o.generated);
         return cases.iter().enumerate().map(|(i, c)| observe(base + i, c, &texts[i], &o, &krate, false)).collect();
     }
